@@ -28,6 +28,9 @@
 //	      is not fresh (zero value, constructor / typed conversion with a value, Discovery, after earlier
 //	      successful and failed decodes on the same object) gives the value of those bytes, Size() = bytes
 //	      consumed, and re-marshals as that value.
+//	(vii) keylen (keylen.go): every length 0..300 (+ the powers of two and their neighbours up to 65535) of a property
+//	      name and of a String value, in every container kind, at every property position, at depth 1 and 2,
+//	      both directions.
 //
 // Non-empty strict arrays form their own family: a failure that disappears when
 // they are replaced by null is keyed ".../strict-array-nonempty"; a failure
@@ -357,7 +360,8 @@ func run(c *hl.Ctx) {
 		"strict-array elements of API-built trees get keys by a fixed rotation (the API demands keys)",
 		"retention: histories run on one goroutine (concurrent marshalling is outside this family); a caller that only reads the returned slice is entitled to find it unchanged; values whose fresh encoding is already outside the specification (non-empty strict arrays, known finding) are judged for stability only",
 		"mutate: a container is an ordered map (Set on an absent key appends a pair; Set on a present key replaces the value, in place or moved to the end; assigning through the pointer Get returned changes that scalar and nothing else); while the library uses its keyed strict-array layout (known finding), values holding a non-empty strict array are presented and read back in that layout by the harness's own codec (mutate.go), everything else by the specification codec",
-		"reuse: the zero value of an exported type (new(amf0.String), &amf0.Object{}) is a usable empty target, as it is in the unchanged library; a container that already holds properties may keep them when decoded into again (the unchanged library appends; neither code nor comments say otherwise), so for such targets the result is only required to be new, prior++new or prior merged with new, consistently marshalled and sized; failing pre-steps are only required to fail, what they leave behind in a container is read off a twin")
+		"reuse: the zero value of an exported type (new(amf0.String), &amf0.Object{}) is a usable empty target, as it is in the unchanged library; a container that already holds properties may keep them when decoded into again (the unchanged library appends; neither code nor comments say otherwise), so for such targets the result is only required to be new, prior++new or prior merged with new, consistently marshalled and sized; failing pre-steps are only required to fail, what they leave behind in a container is read off a twin",
+		"keylen: how a name or string is written depends on its length and bytes only, so one position-dependent UTF-8 pattern per length stands for all contents of that length; lengths between the contiguous range and 65535 are represented by the powers of two and their neighbours; names/strings longer than 65535 bytes have no short-string encoding and are outside the family; while the library uses its keyed strict-array layout (known finding), values holding a non-empty strict array are presented and read back in that layout by the harness's own codec (keylen.go), element names included, everything else by the specification codec")
 
 	full, small := ref.DefaultLeaves(), ref.SmallLeaves()
 	keys4, keys2 := ref.DefaultKeys(), []string{"a", ""}
@@ -381,6 +385,7 @@ func run(c *hl.Ctx) {
 		checkBooleanBytes(c)
 	}
 	checkMarkers(c, &idx)
+	checkKeylenFamily(c, &idx)
 	checkRetentionFamily(c, &idx)
 	checkMutateFamily(c, &idx)
 	checkReuseFamily(c, &idx)
@@ -497,6 +502,12 @@ func replay(c *hl.Ctx, raw json.RawMessage) {
 			}
 		}
 		checkReuse(c, cs, keyed, prior)
+	case "keylen":
+		var cs klCase
+		if err := json.Unmarshal(raw, &cs); err != nil {
+			panic(err)
+		}
+		checkKeylen(c, cs, keyedStrictLayout())
 	case "marker":
 		var cs markerCase
 		if err := json.Unmarshal(raw, &cs); err != nil {
